@@ -91,4 +91,24 @@ theorem C06_db_readback {o : Opts} {hist : List Ent} {d : Db} (hm : o.managed = 
       obtain ⟨hm1, hk1, hv1, _⟩ := LL.newestLE_some hn
       exact ⟨hm1, hk1, h2.symm, by omega⟩
 
+/-- **C12 over every history**: two reachable database states with the same commit history answer
+    every read at a timestamp at or above both discard watermarks identically, whatever flushes
+    and compactions (L0→base, L0→L0, level→level, last-level rewrites, any picker-valid choice of
+    tables, any split of the output) led to them. In particular no flush/compaction sequence changes
+    such a read, no committed write is lost and no overwritten or deleted version comes back. -/
+theorem C12_db_history_determines_reads {o : Opts} {hist : List Ent} {d1 d2 : Db} (hm : o.managed = false)
+    (r1 : DbReach o hist d1) (r2 : DbReach o hist d2) (k : Bytes) (ts now : Nat)
+    (h1 : d1.discardAtOrBelow ≤ ts) (h2 : d2.discardAtOrBelow ≤ ts) (hn1 : d1.now ≤ now) (hn2 : d2.now ≤ now) :
+    visible now (d1.lsm.get k ts) = visible now (d2.lsm.get k ts) := by
+  have i1 := DbL.inv_of_reach hm r1
+  have i2 := DbL.inv_of_reach hm r2
+  obtain ⟨dm1, nm1, R1, a1, b1⟩ := i1.l.reach
+  obtain ⟨dm2, nm2, R2, a2, b2⟩ := i2.l.reach
+  unfold Db.discardAtOrBelow at h1 h2
+  rw [DbL.managed_false hm i1] at h1
+  rw [DbL.managed_false hm i2] at h2
+  have h1 : d1.readMark.doneUntil ≤ ts := by simpa using h1
+  have h2 : d2.readMark.doneUntil ≤ ts := by simpa using h2
+  rw [C01_reach_reads R1 (by omega) (by omega) k, C01_reach_reads R2 (by omega) (by omega) k]
+
 end Badger
